@@ -13,6 +13,7 @@ import (
 	"testing"
 	"time"
 
+	"gitlab.com/gomidi/midi/v2/drivers"
 	"gitlab.com/gomidi/midi/v2/drivers/testdrv"
 	"gitlab.com/gomidi/midi/v2/smf"
 	"gitlab.com/gomidi/midi/v2/zverif/adapt"
@@ -384,6 +385,12 @@ type TakesCase struct {
 	Take1, Take2 []live.Chunk
 	BPM          float64
 	Res          uint16
+	// Ctor1: the file comes from NewSMF1 (its format does not change when the second track arrives)
+	Ctor1 bool `json:",omitempty"`
+	// Port: "" = a fresh exact-clock port per take, "same" = one exact-clock port for both takes,
+	// "testdrv" = one testdrv port for both takes (pauses capped at one second: its clock starts
+	// at the wall clock)
+	Port string `json:",omitempty"`
 }
 
 func channelOnly(chunks []live.Chunk) [][]byte {
@@ -404,17 +411,45 @@ func runTakes(c TakesCase) (res ev.Result) {
 	want := [][][]byte{channelOnly(c.Take1), channelOnly(c.Take2)}
 	res.Nontrivial = len(want[0]) > 0 && len(want[1]) > 0
 	file := smf.New()
+	if c.Ctor1 {
+		file = smf.NewSMF1()
+	}
 	file.TimeFormat = smf.MetricTicks(c.Res)
 	var first, second bytes.Buffer
 	failed := ev.TryTimeout(ev.Watchdog, func() {
+		var fake *live.FakeIn
+		var drv *testdrv.Driver
+		var tin drivers.In
+		var tout drivers.Out
+		if c.Port == "testdrv" {
+			drv = testdrv.New("c13-takes")
+			ins, _ := drv.Ins()
+			outs, _ := drv.Outs()
+			tin, tout = ins[0], outs[0]
+			tout.Open()
+			drv.Sleep(2 * time.Second)
+		}
 		for i, take := range [][]live.Chunk{c.Take1, c.Take2} {
-			in := &live.FakeIn{}
+			if fake == nil || c.Port == "" {
+				fake = &live.FakeIn{}
+			}
+			var in drivers.In = fake
+			if drv != nil {
+				in = tin
+			}
 			stop, err := file.RecordFrom(in, c.BPM)
 			if err != nil {
 				panic(err)
 			}
 			for _, ch := range take {
-				in.Feed(ch.Data, ch.Delta)
+				if drv != nil {
+					drv.Sleep(time.Duration(min(ch.Delta, 1000)) * time.Millisecond)
+					if err := tout.Send(ch.Data); err != nil {
+						panic(err)
+					}
+				} else {
+					fake.Feed(ch.Data, ch.Delta)
+				}
 			}
 			stop()
 			w := &first
@@ -473,7 +508,7 @@ func runTakes(c TakesCase) (res ev.Result) {
 }
 
 var takes = ev.NewCheck("C13", "smf-record-two-takes",
-	"rapid: two live streams recorded one after the other into the same file with SMF.RecordFrom, the file is written after each take (record - write - record - write); oracle: each written file passes the strict SMF parser, has one track per take so far, reads back equal, and every track holds exactly the channel messages of its take in order; non-trivial = both takes contain channel messages; cases run in parallel (each stop sleeps one second)",
+	"rapid: two live streams recorded one after the other into the same file (from New or NewSMF1) with SMF.RecordFrom, from a fresh port per take, from the same port, or from the same testdrv port, the file is written after each take (record - write - record - write); oracle: each written file passes the strict SMF parser, has one track per take so far, reads back equal, and every track holds exactly the channel messages of its take in order; non-trivial = both takes contain channel messages; cases run in parallel (each stop sleeps one second)",
 	func(t *rapid.T) TakesCase {
 		a, b := genCase("smf-fake")(t), genCase("smf-fake")(t)
 		// the second take was bounded for its own tempo and resolution: bound it for the ones used
@@ -489,7 +524,8 @@ var takes = ev.NewCheck("C13", "smf-record-two-takes",
 				b.Chunks[i].Delta = int32(float64(b.Chunks[i].Delta) * f)
 			}
 		}
-		return TakesCase{Take1: a.Chunks, Take2: b.Chunks, BPM: a.BPM, Res: a.Res}
+		return TakesCase{Take1: a.Chunks, Take2: b.Chunks, BPM: a.BPM, Res: a.Res,
+			Ctor1: rapid.Bool().Draw(t, "newSMF1?"), Port: rapid.SampledFrom([]string{"", "same", "testdrv"}).Draw(t, "port")}
 	}, runTakes)
 
 func TestPropSMFRecordTwoTakes(t *testing.T) {
